@@ -66,6 +66,8 @@ def dep_str(d):
     opts = []
     if d.get("gap"):
         opts.append(f"gapduration {d['gap']}")
+    if d.get("glen"):
+        opts.append(f"gaplength {d['glen']}")
     if d.get("onstart"):
         opts.append("onstart")
     if opts:
